@@ -512,6 +512,38 @@ func ObserveHistory(st Receiver, base *state.BaseAsyncState, msg net.Message) (s
 	return "corrupted", fmt.Sprintf("history size %d -> %d, message stored: %v", before, after, stored), nil
 }
 
+// WalkSync follows the real Next() chain from first to the state whose type is named.
+func WalkSync(first state.SyncState, name string) (state.SyncState, error) {
+	st := first
+	for i := 0; i < 32 && st != nil && !reflect.ValueOf(st).IsNil(); i++ {
+		if reflect.TypeOf(st).Elem().Name() == name {
+			return st, nil
+		}
+		next, err := st.Next()
+		if err != nil {
+			return nil, err
+		}
+		st = next
+	}
+	return nil, fmt.Errorf("harness: state %s is not on the Next() chain", name)
+}
+
+// WalkAsync is WalkSync for message-driven states.
+func WalkAsync(first state.AsyncState, name string) (state.AsyncState, error) {
+	st := first
+	for i := 0; i < 32 && st != nil && !reflect.ValueOf(st).IsNil(); i++ {
+		if reflect.TypeOf(st).Elem().Name() == name {
+			return st, nil
+		}
+		next, err := st.Next()
+		if err != nil {
+			return nil, err
+		}
+		st = next
+	}
+	return nil, fmt.Errorf("harness: state %s is not on the Next() chain", name)
+}
+
 // ---------------------------------------------------------------- replay loop
 
 // Observed outcomes (the specification's alphabet).
